@@ -441,7 +441,8 @@ class NetSim:
                 self.reader_over.append((it, n))
         if n > self.max_readers:
             self.max_readers = n
-        if self._retain:
+        if self._retain and n >= 1:
+            # "between reads": sampled while the client waits inside a read, not while it works through one
             r = retained_bytes(c)
             if r > self.max_retained:
                 self.max_retained = r
